@@ -557,11 +557,45 @@ def text_codec(n):
         return True
 
 
+_valid_cache = {}
+
+
 def impl_valid_name(n):
-    """tokenizes as one IDENT and is a codec CPython knows (what CSSCharsetRule._setEncoding requires)"""
-    if not n or not re.fullmatch(r'-?[A-Za-z_\x80-\U0010ffff][A-Za-z0-9_\-\x80-\U0010ffff]*', n):
-        return False
-    return known(n)
+    """does CSSCharsetRule accept the name? Asked from the implementation (which codecs are usable is CPython's
+    business and a parameter of the models); spec_valid_name below is the independent statement used by the oracle"""
+    if n in _valid_cache:
+        return _valid_cache[n]
+    import xml.dom
+
+    import cssutils
+    old = cssutils.log.raiseExceptions
+    cssutils.log.raiseExceptions = True
+    try:
+        if not n:
+            ok = False
+        else:
+            try:
+                ok = bool(cssutils.css.CSSCharsetRule(encoding=n).encoding)
+            except xml.dom.DOMException:
+                ok = False
+    finally:
+        cssutils.log.raiseExceptions = old
+    _valid_cache[n] = ok
+    return ok
+
+
+def spec_valid_name(n):
+    """'yes' / 'no' / 'either': one IDENT naming a text encoding CPython has must be accepted, anything that is not
+    an IDENT or not a codec must be rejected; codecs that are not text encodings may be rejected"""
+    if not n or not re.fullmatch(r'-?[A-Za-z_\x80-\U0010ffff][A-Za-z0-9_\-\x80-\U0010ffff]*', n) or not known(n):
+        return 'no'
+    if not text_codec(n):
+        return 'either'
+    try:
+        ' '.encode(n)
+    except Exception:
+        return 'either'
+    return 'yes'
 
 
 def op_word(o):
@@ -679,6 +713,7 @@ def run_edits(cssutils, ops):
     cssutils.log.raiseExceptions = True
     steps, viol = [], []
     inorder_index_seen = False      # region of the known finding C08-inorder-index
+    broken_by_inorder = False       # … and the invariant did break there: what follows is a consequence
     for k, o in enumerate(ops):
         status = 'ok'
         if o['op'] == 'ins' and o['inorder'] and o['index'] is not None and o['rule'] == 'variables':
@@ -716,9 +751,11 @@ def run_edits(cssutils, ops):
         cs = [i for i, r in enumerate(rules) if r.type == r.CHARSET_RULE]
         want = rules[0].encoding if cs[:1] == [0] else 'utf-8'
         w = {'step': k, 'op': op_word(o)}
+        n_before = len(viol)
         if cs not in ([], [0]):
-            viol.append({'clause': 'there is at most one @charset rule and it is the first rule', 'detail': dict(w, charset_at=cs),
-                         'known': 'C08-inorder-index' if inorder_index_seen else None})
+            if inorder_index_seen:
+                broken_by_inorder = True
+            viol.append({'clause': 'there is at most one @charset rule and it is the first rule', 'detail': dict(w, charset_at=cs)})
         elif e_now != want:
             viol.append({'clause': 'sheet.encoding equals the @charset rule (utf-8 without one)',
                          'detail': dict(w, encoding=e_now, rule=want)})
@@ -737,6 +774,10 @@ def run_edits(cssutils, ops):
             viol.append({'clause': 'the serialisation is a byte string decodable in sheet.encoding',
                          'detail': dict(w, error=repr(x)),
                          'known': 'C08-nontext-codec' if not text_codec(e_now) else None})
+        if broken_by_inorder:
+            for v in viol[n_before:]:
+                v.setdefault('known', 'C08-inorder-index')
+                v['known'] = v['known'] or 'C08-inorder-index'
     return steps, '%s %s' % (show_rules(sheet), enc(sheet.encoding)), viol
 
 
